@@ -1,0 +1,38 @@
+//go:build verif
+
+// Contracts for the gocv verifier (comment-only file; see /verif/DESIGN.md §4).
+package forwardedns0opt
+
+//@ type forwarder
+//@   immutable forwardTypCodes
+
+// QuickSetup (C15): the option codes that may cross between client and upstream are exactly the
+// configured numbers, read as DECIMAL 16-bit numbers; anything else is a configuration error.
+//@ func QuickSetup [C15]
+//@   ensures result_1 == nil ==> result_0 != nil && it0 == nfields(numbers)
+//@   ensures result_1 != nil ==> result_0 == nil
+//@   loop 0:
+//@     invariant 0 <= it0 && fresh(m)
+//@     each iter_calls(ParseUint) == 1 && iter_arg(ParseUint, 0, 0) == field(numbers, athead(it0)) && iter_arg(ParseUint, 0, 1) == 10 && iter_arg(ParseUint, 0, 2) == 16 && iter_ret(ParseUint, 0, 1) == nil
+//@     each iter_ret(ParseUint, 0, 0) in m
+//@     each forall c uint32 :: c in m ==> c in athead(m) || c == iter_ret(ParseUint, 0, 0)
+
+// Exec (C15): an option of the client's OPT is copied into the upstream query only if its code is
+// configured; an option of the upstream's OPT is copied into the client reply's OPT only if its
+// code is configured; nothing else is added to either OPT by this plugin.
+//@ func (f *forwarder) Exec [C15]
+//@   requires f != nil && qCtx != nil && qCtx.query != nil && okRRs(qCtx.query.Extra) && !noOPT(qCtx.query.Extra)
+//@   requires wfK(next.chain, next.p, next.jumpBack)
+//@   modifies *
+//@   ensures calls(ExecNext) == 1
+//@   ensures result != nil ==> result == ret(ExecNext, 0)
+//@   loop 0:
+//@     invariant f != nil && qCtx != nil && qOpt != nil && clientOpt != nil && calls(ExecNext) == 0 && 0 <= it0
+//@     each len(qOpt.Option) == athead(len(qOpt.Option)) || len(qOpt.Option) == athead(len(qOpt.Option)) + 1
+//@     each len(qOpt.Option) == athead(len(qOpt.Option)) ==> qOpt.Option == athead(qOpt.Option)
+//@     each len(qOpt.Option) == athead(len(qOpt.Option)) + 1 ==> optCode(o) in f.forwardTypCodes && qOpt.Option[len(qOpt.Option) - 1] == o
+//@   loop 1:
+//@     invariant f != nil && qCtx != nil && respOpt != nil && upstreamOpt != nil && calls(ExecNext) == 1 && 0 <= it1
+//@     each len(respOpt.Option) == athead(len(respOpt.Option)) || len(respOpt.Option) == athead(len(respOpt.Option)) + 1
+//@     each len(respOpt.Option) == athead(len(respOpt.Option)) ==> respOpt.Option == athead(respOpt.Option)
+//@     each len(respOpt.Option) == athead(len(respOpt.Option)) + 1 ==> optCode(o) in f.forwardTypCodes && respOpt.Option[len(respOpt.Option) - 1] == o
